@@ -5,7 +5,7 @@ from mc import core, det, vnet, fe, xstate
 PROPERTY = 'C10'
 ENGINE = 'E2 explicit-state search (BFS to fixpoint + all histories to depth k, no dedup) over the real connection handler on the E3 virtual network, one connection at a time'
 LEVEL = 'model_checking'
-DIRECTED_ADDITIONS = 'malformed / sid-less / unstorable messages, five near-miss foreign sids, a second token under the same correlation value, loopback-TCP replays built from the same message constructor'      # members added during the seeded-change campaign (DESIGN 7); counted under their own vacuity counters
+DIRECTED_ADDITIONS = 'one server process serving 220 (thorough: 800) consecutive connections, again under a 128 open-files limit, malformed / sid-less / unstorable messages, five near-miss foreign sids, a second token under the same correlation value, loopback-TCP replays built from the same message constructor'      # members added during the seeded-change campaign (DESIGN 7); counted under their own vacuity counters
 
 ALPHABET = ['config1', 'config2', 'upload1', 'upload2', 'search', 'search-other', 'reconnect-before-cleanup', 'reconnect-after-cleanup', 'foreign-sid', 'unknown-type',
             'config-malformed', 'upload-malformed', 'search-malformed', 'no-sid', 'config-unstorable']
@@ -43,6 +43,8 @@ def units(tier, seed):
     for a, b in itertools.product(ALPHABET, repeat=2):
         us.append(('dfs/%s/%s' % (a, b), {'kind': 'dfs', 'prefix': [a, b]}))
     us.append(('dfs/short', {'kind': 'dfs-short'}))
+    # one server process serving a long run of connections (also executed with a small open-files limit: ENV_VARIANTS)
+    us.append(('long', {'kind': 'long', 'rounds': 110 if tier == 'quick' else 400}))
     # conformance of the transport model: explored histories replayed over real loopback TCP (mc/loopback.py)
     if tier == 'quick':
         hs = [['config1', 'upload1', 'search'], ['search', 'reconnect-before-cleanup', 'config2', 'config1'],
@@ -60,6 +62,10 @@ def units(tier, seed):
         for k in range(0, len(hs), 12):
             us.append(('tcp/%d' % k, {'kind': 'tcp', 'histories': hs[k:k + 12]}))
     return sorted(us, key=lambda u: not u[0].startswith('tcp'))
+
+
+def long_history(rounds):
+    return ['config1', 'reconnect-before-cleanup', 'upload1'] + ['reconnect-after-cleanup', 'search', 'config2', 'reconnect-before-cleanup', 'search-other', 'upload2'] * rounds
 
 
 def messages_for(fx, sid, ev):
@@ -290,6 +296,45 @@ class ServerSystem:
         return (md['state'], md['cfg'], md['edb'], md['open'], fh, reg, snap, timers, lock)
 
 
+def run_long(r, system, hist):
+    """one server process, one service, a long run of connections; stops at the first problem"""
+    import errno
+    s = system.fresh()
+    fds0 = len(os.listdir('/proc/self/fd'))
+    try:
+        for i, ev in enumerate(hist):
+            case = {'history': hist[:i], 'event': ev, 'engine': 'long'}
+            if ev not in system.events(s):
+                r.v(PROPERTY, 'harness', 'long-run-event-not-enabled', ev, case, 'enabled', 'not enabled')
+                return
+            try:
+                probs = system.step(s, ev)
+            except OSError as e:
+                if e.errno not in (errno.EMFILE, errno.ENFILE):
+                    raise
+                # the process (server and harness share it) has run out of file descriptors
+                fds = '/proc/self/fd'
+                try:
+                    held = len(os.listdir(fds))
+                except OSError:
+                    held = 'all'
+                r.v(PROPERTY, 'server', 'descriptors-exhausted', 'long-run', {'history_length': i, 'rounds': (len(hist) - 3) // 6, 'engine': 'long'},
+                    'a server process keeps serving consecutive connections within the open-files limit (%d descriptors open at the start)' % fds0,
+                    '%s descriptors open after %d events: %s' % (held, i, e))
+                return
+            r['transitions'] += 1
+            for prob in probs:
+                r.v(PROPERTY, 'server', prob[0], prob[1], case, prob[2], prob[3])
+                r.outcome(prob[0])
+            if probs:
+                return
+    finally:
+        try:
+            system.dispose(s)
+        except OSError:
+            pass
+
+
 def run_unit(p, tier, seed):
     r = core.Result()
     system = ServerSystem(seed)
@@ -308,6 +353,17 @@ def run_unit(p, tier, seed):
             r.v(PROPERTY, 'harness', 'virtual-vs-tcp-disagreement', 'c10-history', {'history': b['history'], 'engine': 'tcp'}, b['virtual'], b['tcp'])
         r.outcome('tcp-agrees' if not bad else 'tcp-disagrees')
         r.sample({'tcp_loopback_replay': p['histories'][0]}, limit=1)
+        det.restore()
+        return r
+    if p['kind'] == 'long':
+        hist = long_history(p['rounds'])
+        run_long(r, system, hist)
+        r['evaluations'] += 1
+        r['traces'] += 1
+        r['nontrivial'] += 1
+        r.count('long-run-connections', sum(1 for e in hist if e.startswith('reconnect')))
+        r.outcome('long-run-complete' if not r['violations'] else 'long-run-stopped')
+        r.sample({'long_run': '%d events, %d connections on one server process' % (len(hist), sum(1 for e in hist if e.startswith('reconnect')))}, limit=1)
         det.restore()
         return r
     if p['kind'] == 'bfs':
@@ -385,6 +441,9 @@ def replay(case, seed):
             r.v(PROPERTY, 'harness', 'virtual-vs-tcp-disagreement', 'c10-history', case, b['virtual'], b['tcp'])
         return r['violations']
     system = ServerSystem(seed)
+    if case.get('engine') == 'long':
+        run_long(r, system, long_history(case['rounds']) if 'rounds' in case else list(case['history']) + [case['event']])
+        return r['violations']
     s = system.fresh()
     try:
         for ev in case['history']:
@@ -396,9 +455,9 @@ def replay(case, seed):
     return r['violations']
 
 # a subset of the units is executed again in other environments (child interpreters): see core.run_variants
-ENV_VARIANTS = [{'name': 'python-O', 'flags': ['-O']}]
+ENV_VARIANTS = [{'name': 'python-O', 'flags': ['-O']}, {'name': 'nofile-128', 'rlimit': {'NOFILE': 128}}]
 
 def variant_units(tier, seed, name):
-    pred = lambda uid, p: p.get('kind') == 'bfs'
+    pred = (lambda uid, p: p.get('kind') == 'long') if name == 'nofile-128' else (lambda uid, p: p.get('kind') == 'bfs')
     return [u for u in units('quick', seed) if pred(u[0], u[1])]
 
